@@ -73,11 +73,12 @@ class C15(Property):
     id = "C15"
     # C15Full imports C15Velocity and C15Ieee; chain: C15Velocity ▸ C15ShiftLines ▸ C15Shift (▸ Lemmas/ShiftLaws) ▸ C15Map ▸ C15; C15Ieee ▸ C15Map; all in namespace Rosu.C15
     lean_module = "RosuModel.Props.C15Full"
-    theorem_modules = ['RosuModel.Props.C15Velocity', 'RosuModel.Props.C15Ieee', 'RosuModel.Props.C15IeeeDecoded', 'RosuModel.Props.C15ShiftOn', 'RosuModel.Props.C15ShiftLinesOn', 'RosuModel.Props.C15IeeeShift',
+    theorem_modules = ['RosuModel.Props.C15Velocity', 'RosuModel.Props.C15Ieee', 'RosuModel.Props.C15IeeeDecoded', 'RosuModel.Props.C15ShiftOn', 'RosuModel.Props.C15ShiftLinesOn', 'RosuModel.Props.C15IeeeShift', 'RosuModel.Props.C15IeeeVelocity',
                        ('RosuModel.Lemmas.FloatIntExact', 'Rosu.FIE'), ('RosuModel.Lemmas.ShiftLawsOn', 'Rosu')]   # files whose top-level theorems are all audited
     namespace = "Rosu.C15"
     design_ref = "5.15"
     required_theorems = [
+        "velocity_worded_err_float", "velocity_factors_float", "velocity_not_exact_float",
         "shiftLawsOn_float_int", "shift_invariant_float_int", "shift_invariant_float_int_erased", "beatmap_shift_invariant_float_int", "slider_samples_shift_witness",
         "slider_samples_shift_false", "shift_invariant_float_int_statement_false", "shift_invariant_on", "shift_invariant_on_erased", "finish_rel_on","sorted_perm", "sorted_nondecreasing", "sorted_stable", "postProcessBreaks_length", "orNewCombo_only_sets",
                          "skipBreaks_spec", "skipBreaks_stops", "precisionAdjusted_form", "slider_finalized", "applyNodeSamples_length",
@@ -145,6 +146,13 @@ class C15(Property):
             "Rosu.IeeeFalse.shiftLaws_zero_float_false : ¬ ShiftLaws Float 0 in Props/IeeeFalse.lean, audited under C02 — so even for k = 0 the theorems under ShiftLaws are vacuous on the IEEE instance), and the step from decimal text "
             "to 'this field parses to t + k' (number codec), and the framing loop (lines are taken as already tagged with their section). That regime is evaluated on the "
             "implementation by decoding pairs of files whose times differ by a whole number of milliseconds",
+        "velocity_worded_err_float (the velocity formula on IEEE DOUBLES)":
+            "sixth session, Props/C15IeeeVelocity.lean over Lemmas/FloatErrMul.lean (the standard model of IEEE multiplication and division for Lean's logical doubles: mul_err_float / div_err_float, "
+            "|delta| <= 2^-53 in the normal range, absolute bound max(2^-53 |exact|, 2^-1075) everywhere; division at the full half-ulp bound) and Lemmas/FloatErrRange.lean: for slider multiplier in [0.4, 3.6], beat length in "
+            "[6, 60000] and slider-velocity multiplier in [0.1, 10] (the decoded ranges) the velocity the finaliser stores, velocityF = (100 as f32 as f64) * SM / precision_adjusted_beat_len(sv, bl, mode), is finite and "
+            "|v - 100 * SM * sv' / bl| <= 6 * 2^-53 * (100 * SM * sv' / bl) with sv' the clamped multiplier (velocity_worded_err_float; velocity_factors_float gives the five rounding factors; finiteness, no overflow / underflow and "
+            "the sign test are DERIVED from the ranges). Exact equality is false in IEEE: velocity_not_exact_float (osu!, SM 2.7, beat length 333.33, sv 1.5: relative error 2.70 * 2^-53, kernel-evaluated), so 'equals' in the property holds up to six "
+            "half-ulps and not bit for bit",
         "velocity/duration": "slider_finalized is the closed form as the code evaluates it (IEEE, any Scalar). velocity_worded / slider_finalized_worded prove, in exact rational "
             "arithmetic (Rat instance of Lemmas/ToyRat.lean) and for a positive active multiplier, that it equals the worded formula velocity = 100·SM·clamp(sv)/beat_len with "
             "clamp(sv) = clamp(sv, 0.01, 10) (osu!/catch) or clamp(sv, 0.1, 10) (taiko/mania), duration = spans·distance/velocity; difficultyPoint_new_range + clampedSV_of_range: "
